@@ -435,7 +435,7 @@ def convert(R, P):
     from sa.cfg import dominators
     dom = dominators(f)
     tests = [b.id for b in f.blocks.values() if b.cond is not None and "frequency > 0" in f.show(b.cond)]
-    okd = len(divs) >= 4 and len(fa) == 1 and len(tests) >= 2
+    okd = len(divs) >= 4 and len(fa) >= 1 and len(tests) >= 2
     for nd in divs:
         blk = num.elem_of.get(nd["id"], (None,))[0]
         okd = okd and blk is not None and all(t in dom.get(blk, ()) for t in tests)
